@@ -79,7 +79,7 @@ class Out:
 
 class Part:
     def __init__(self, name, strategy, run_case, quick, thorough, quick_shards=4, thorough_shards=16,
-                 enumerate_cases=None, essential=()):
+                 enumerate_cases=None, essential=(), case_timeout=None):
         """strategy: callable(tier) -> hypothesis strategy of JSON-able cases (or None when
         enumerate_cases is given); enumerate_cases: callable(tier, shard, nshards) -> iterable of
         cases enumerated exhaustively (not generated); quick/thorough: examples *per shard*."""
@@ -90,6 +90,7 @@ class Part:
         self.shards = {"quick": quick_shards, "thorough": thorough_shards}
         self.enumerate_cases = enumerate_cases
         self.essential = tuple(essential)
+        self.case_timeout = case_timeout      # seconds; overrides the module's CASE_TIMEOUT_S (fuzzing campaigns are long "cases")
 
 
 def canon(case):
@@ -192,7 +193,10 @@ def _shard_main(args):
         n = part.examples[tier]
         deadline = t0 + budget_s
 
-        case_timeout = float(getattr(mod, "CASE_TIMEOUT_S", 180 if tier == "quick" else 900))
+        mod_timeout = getattr(mod, "CASE_TIMEOUT_S", 180 if tier == "quick" else 900)
+        if isinstance(mod_timeout, dict):
+            mod_timeout = mod_timeout[tier]
+        case_timeout = float(part.case_timeout or mod_timeout)
         max_timeouts = int(getattr(mod, "MAX_CASE_TIMEOUTS", 6))
         signal.signal(signal.SIGALRM, _on_alarm)
 
@@ -284,7 +288,10 @@ def shrink_case(mod, part, tier, seed, shard, tag, original, budget_s):
         if time.time() - t0 > budget_s:
             return
         signal.signal(signal.SIGALRM, _on_alarm)
-        signal.setitimer(signal.ITIMER_REAL, float(getattr(mod, "CASE_TIMEOUT_S", 180)))
+        mod_timeout = getattr(mod, "CASE_TIMEOUT_S", 180)
+        if isinstance(mod_timeout, dict):
+            mod_timeout = mod_timeout[tier]
+        signal.setitimer(signal.ITIMER_REAL, float(part.case_timeout or mod_timeout))
         try:
             out = safe_run_case(part, case)
         except CaseTimeout:
